@@ -17,6 +17,11 @@ func cmdDump(args []string) {
 		for _, f := range eng.instances(pp.PkgPath, fn) {
 			f.WriteTo(os.Stdout)
 			fr := eng.newProof(f).newFrame(f, "", 0)
+			for in, m := range fr.sites {
+				if k, ok := m["call"]; ok {
+					fmt.Printf("site call#%d %s at %v\n", k, in.String(), eng.fset.Position(in.Pos()))
+				}
+			}
 			for h, li := range fr.loops {
 				fmt.Printf("loop %d: header block %d (%s), %d blocks\n", li.ord, h.Index, h.Comment, len(li.body))
 				for b := range li.body {
